@@ -24,7 +24,8 @@ MANIFEST = {
             'exception leaves a node\'s loop, at most one relay per node incarnation and id. Bounded liveness once faults '
             'stopped, with the bound computed from the code\'s own timers: every head reaches the greatest height, every '
             'node holds the complete chain of its head; after a tie-breaking block a broadcast transaction reaches every '
-            'pool; afterwards no block or transaction data message is sent any more.',
+            'pool; afterwards no block or transaction data message is sent any more.'
+            ' A quarter of the networks put all nodes on one host (ports differ); stars may have every spoke behind NAT so that the hub is the only path.',
     'note': 'Trusted: simulated TCP/selector/clock, the liveness bound formula (DESIGN 6.C10), history below block 1 is a '
             'trusted easy-target block (bulk download never validates in chain). Clock skew above 10 s legitimately rejects '
             'fresh blocks and is excluded.',
